@@ -669,16 +669,33 @@ pub fn gen_cfg(rng: &mut Prng) -> Value {
 
 fn gen_cidr(rng: &mut Prng) -> Value {
     let neg = rng.chance(1, 4);
-    if rng.chance(1, 6) {
+    if let Some(n) = hint_num(rng, 65_536) {
+        // a hinted number as prefix length / as a byte or group of the address
+        return match rng.below(4) {
+            0 if n <= 32 => json!({"neg": neg, "ip": [10, 1, 2, 3], "bits": n}),
+            1 if n <= 128 => json!({"neg": neg, "ip": [0x2001, 0xdb8, 1, 0, 0, 0, 0, 1], "bits": n}),
+            2 if n < 256 => json!({"neg": neg, "ip": [10, n, 0, 0], "bits": 16}),
+            _ => json!({"neg": neg, "ip": [0x2001, n, 0, 0, 0, 0, 0, 0], "bits": 32}),
+        };
+    }
+    if rng.chance(1, 5) {
         // v6
-        let (g, bits): (Vec<u64>, u64) = match rng.below(3) {
+        let (g, bits): (Vec<u64>, u64) = match rng.below(9) {
             0 => (vec![0x2001, 0xdb8, 0, 0, 0, 0, 0, 0], 32),
             1 => (vec![0x2001, 0xdb8, 1, 0, 0, 0, 0, 0], 48),
-            _ => (vec![0, 0, 0, 0, 0, 0, 0, 0], 0),
+            2 => (vec![0, 0, 0, 0, 0, 0, 0, 0], 0),
+            3 => (vec![0x2001, 0xdb8, 1, 0, 0, 0, 0, 1], 128),
+            // the v4-mapped block and one v4-mapped address: a v6 network, never a v4 one
+            4 => (vec![0, 0, 0, 0, 0, 0xffff, 0, 0], 96),
+            5 => (vec![0, 0, 0, 0, 0, 0xffff, 0x0a01, 0x0203], 128),
+            // not networks (host part set / prefix too long): dropped when the rule is read
+            6 => (vec![0x2001, 0xdb8, 1, 0, 0, 0, 0, 1], 32),
+            7 => (vec![0x2001, 0xdb8, 0, 0, 0, 0, 0, 0], 129),
+            _ => (vec![0x2001, 0xdb8, 1, 0, 0, 0, 0, 0], 127),
         };
         return json!({"neg": neg, "ip": g, "bits": bits});
     }
-    let (g, bits): (Vec<u64>, u64) = match rng.below(8) {
+    let (g, bits): (Vec<u64>, u64) = match rng.below(14) {
         0 => (vec![10, 0, 0, 0], 8),
         1 => (vec![10, 1, 0, 0], 16),
         2 => (vec![10, 1, 2, 0], 24),
@@ -686,13 +703,25 @@ fn gen_cidr(rng: &mut Prng) -> Value {
         4 => (vec![192, 168, 0, 0], 16),
         5 => (vec![0, 0, 0, 0], 0),
         6 => (vec![10, 1, 2, 2], 31),
-        _ => (vec![128, 0, 0, 0], 1),
+        7 => (vec![128, 0, 0, 0], 1),
+        8 => (vec![255, 255, 255, 255], 32),
+        // not networks: dropped when the rule is read (a rule left without any range has no ip trigger)
+        9 => (vec![10, 1, 2, 3], 8),
+        10 => (vec![10, 1, 2, 3], 24),
+        11 => (vec![10, 0, 0, 0], 33),
+        12 => (vec![192, 168, 0, 1], 0),
+        _ => (vec![10, 1, 2, 3], 31),
     };
     json!({"neg": neg, "ip": g, "bits": bits})
 }
 
+/// `a.b.c.d` as the v4-mapped v6 address `::ffff:a.b.c.d`
+fn v4_mapped(ip: &[u64]) -> Vec<u64> {
+    vec![0, 0, 0, 0, 0, 0xffff, ip[0] * 256 + ip[1], ip[2] * 256 + ip[3]]
+}
+
 fn gen_req_ip(rng: &mut Prng) -> Value {
-    match rng.below(9) {
+    match rng.below(14) {
         0 => json!([10, 1, 2, 3]),
         1 => json!([10, 1, 2, 2]),
         2 => json!([10, 1, 3, 1]),
@@ -701,7 +730,13 @@ fn gen_req_ip(rng: &mut Prng) -> Value {
         5 => json!([11, 0, 0, 1]),
         6 => json!([200, 1, 1, 1]),
         7 => json!([0x2001, 0xdb8, 1, 0, 0, 0, 0, 1]),
-        _ => json!([0x2001, 0xdb9, 0, 0, 0, 0, 0, 1]),
+        8 => json!([0x2001, 0xdb9, 0, 0, 0, 0, 0, 1]),
+        // v4-mapped v6 clients: in no v4 network (and so accepted by every `not_in_range` of a v4 network)
+        9 => json!(v4_mapped(&[10, 1, 2, 3])),
+        10 => json!(v4_mapped(&[192, 168, 1, 1])),
+        11 => json!([255, 255, 255, 255]),
+        12 => json!([0, 0, 0, 0]),
+        _ => json!([0, 0, 0, 0, 0, 0, 0, 1]),
     }
 }
 
@@ -716,17 +751,97 @@ pub fn gen_range(rng: &mut Prng, pool: &[u64]) -> Value {
     }
 }
 
+/// How a date bound is WRITTEN: half of the time in a zone other than UTC (the UTC instant stays the one the
+/// model is given), sometimes with a fraction of a second, `Z`, or as a text no parser accepts.
+fn dress_date_bound(rng: &mut Prng, t: u64) -> Value {
+    let t = match hint_num(rng, 1_000_000) {
+        Some(n) => {
+            if rng.chance(1, 2) {
+                t + n
+            } else {
+                t - n
+            }
+        }
+        None => t,
+    };
+    match rng.below(20) {
+        0..=6 => json!(t),
+        7 => json!({"bad": *rng.pick(BAD_DATES)}),
+        8 | 9 => json!({"t": t, "z": true}),
+        10 => json!({"t": t, "ns": *rng.pick(FRACTIONS), "off": pick_offset(rng)}),
+        11 => json!({"t": t, "ns": *rng.pick(FRACTIONS)}),
+        _ => json!({"t": t, "off": pick_offset(rng)}),
+    }
+}
+
+fn dress_time_bound(rng: &mut Prng, t: u64) -> Value {
+    let t = hint_num(rng, 86_400).unwrap_or(t);
+    match rng.below(12) {
+        0..=4 => json!(t),
+        5 => json!({"bad": *rng.pick(BAD_TIMES)}),
+        6 => json!({"t": t, "ns": *rng.pick(FRACTIONS)}),
+        _ => {
+            if t % 60 == 0 {
+                json!({"t": t, "hm": true})
+            } else {
+                json!({"t": t})
+            }
+        }
+    }
+}
+
+/// A window `[start, end]`; one in seven has start > end (an empty window), one in seven start = end.
+fn gen_window(rng: &mut Prng, pool: &[u64], dress: &dyn Fn(&mut Prng, u64) -> Value) -> Value {
+    let a = *rng.pick(pool);
+    let b = *rng.pick(pool);
+    match rng.below(7) {
+        0 => json!([dress(rng, a), null]),
+        1 => json!([null, dress(rng, a)]),
+        2 => {
+            if rng.chance(1, 3) {
+                json!([null, null])
+            } else {
+                json!([dress(rng, a), dress(rng, a)])
+            }
+        }
+        3 => json!([dress(rng, a.max(b)), dress(rng, a.min(b))]),
+        _ => json!([dress(rng, a.min(b)), dress(rng, a.max(b))]),
+    }
+}
+
+pub fn gen_date_window(rng: &mut Prng) -> Value {
+    gen_window(rng, INSTANTS, &dress_date_bound)
+}
+
+pub fn gen_time_window(rng: &mut Prng) -> Value {
+    gen_window(rng, TIMES, &dress_time_bound)
+}
+
+pub fn gen_weekdays(rng: &mut Prng, n: usize) -> Value {
+    Value::Array(
+        (0..n)
+            .map(|_| {
+                if rng.chance(1, 10) {
+                    Value::Null
+                } else {
+                    json!(hint_num(rng, 7).unwrap_or(rng.below(7) as u64))
+                }
+            })
+            .collect(),
+    )
+}
+
 pub fn gen_header_cond(rng: &mut Prng) -> Value {
     let kind = *rng.pick(&HEADER_KINDS);
-    let name = *rng.pick(HNAMES);
+    let name = pick_text(rng, HNAMES, Place::Plain);
     let value: Value = if kind == "is_defined" || kind == "is_not_defined" {
         if rng.chance(1, 4) { json!("v") } else { Value::Null }
     } else if kind == "match_regex" {
-        json!(*rng.pick(&["v-@d", "V-@d", "@l", "v", "x@dy"]))
+        json!(pick_text(rng, &["v-@d", "V-@d", "@l", "v", "x@dy"], Place::Plain))
     } else if rng.chance(1, 12) {
         Value::Null
     } else {
-        json!(*rng.pick(HVALUES))
+        json!(pick_text(rng, HVALUES, Place::Plain))
     };
     json!({"name": name, "kind": kind, "value": value})
 }
@@ -735,12 +850,12 @@ pub fn gen_header_cond(rng: &mut Prng) -> Value {
 pub fn gen_rule(rng: &mut Prng, id: &str) -> Value {
     let mut r = serde_json::Map::new();
     r.insert("id".into(), json!(id));
-    r.insert("rank".into(), json!(rng.below(6)));
+    r.insert("rank".into(), json!(hint_num(rng, 60_001).unwrap_or(rng.below(6) as u64)));
     if rng.chance(1, 3) {
-        r.insert("scheme".into(), json!(*rng.pick(SCHEMES)));
+        r.insert("scheme".into(), json!(pick_text(rng, SCHEMES, Place::Plain)));
     }
     if rng.chance(3, 5) {
-        r.insert("host".into(), json!(*rng.pick(HOSTS)));
+        r.insert("host".into(), json!(pick_text(rng, HOSTS, Place::Host)));
     }
     r.insert("markers".into(), json!(*rng.pick(&["dlsx", "dlsx", "d", "", "sx", "l"])));
     if rng.chance(1, 3) {
@@ -753,7 +868,7 @@ pub fn gen_rule(rng: &mut Prng, id: &str) -> Value {
     }
     if rng.chance(2, 5) {
         let n = rng.below(4);
-        let mut ms: Vec<Value> = (0..n).map(|_| json!(*rng.pick(METHODS))).collect();
+        let mut ms: Vec<Value> = (0..n).map(|_| json!(pick_text(rng, METHODS, Place::Plain))).collect();
         if n > 0 && rng.chance(1, 4) {
             ms.push(ms[0].clone());
         }
@@ -777,17 +892,20 @@ pub fn gen_rule(rng: &mut Prng, id: &str) -> Value {
     }
     if rng.chance(1, 4) {
         let n = rng.below(3);
-        r.insert("datetime".into(), Value::Array((0..n).map(|_| gen_range(rng, INSTANTS)).collect()));
+        r.insert("datetime".into(), Value::Array((0..n).map(|_| gen_date_window(rng)).collect()));
     }
     if rng.chance(1, 4) {
         let n = rng.below(3);
-        r.insert("time".into(), Value::Array((0..n).map(|_| gen_range(rng, TIMES)).collect()));
+        r.insert("time".into(), Value::Array((0..n).map(|_| gen_time_window(rng)).collect()));
     }
     if rng.chance(1, 4) {
         let n = rng.below(4);
-        r.insert("weekdays".into(), Value::Array((0..n).map(|_| json!(rng.below(7))).collect()));
+        r.insert("weekdays".into(), gen_weekdays(rng, n));
+        if rng.chance(2, 3) {
+            r.insert("wdstyle".into(), json!(rng.below(WEEKDAY_STYLES as usize)));
+        }
     }
-    r.insert("path".into(), json!(*rng.pick(PATHS)));
+    r.insert("path".into(), json!(pick_text(rng, PATHS, Place::Path)));
     Value::Object(r)
 }
 
@@ -800,7 +918,7 @@ pub fn gen_rules(rng: &mut Prng, n: usize, prefix: &str) -> Vec<Value> {
         if !rules.is_empty() && rng.chance(1, 2) {
             // copy some triggers of an earlier rule so that both land in the same buckets
             let src = rules[rng.below(rules.len())].clone();
-            for k in ["scheme", "host", "ips", "methods", "exclude", "headers", "datetime", "time", "weekdays", "path", "markers"] {
+            for k in ["scheme", "host", "ips", "methods", "exclude", "headers", "datetime", "time", "weekdays", "wdstyle", "path", "markers"] {
                 if rng.chance(3, 5) {
                     match src.get(k) {
                         Some(v) => {
@@ -865,9 +983,9 @@ pub fn shared_condition_pair(rng: &mut Prng, rules: &mut [Value]) {
             o.remove("time");
             o.remove("weekdays");
         }
-        let window = json!([gen_range(rng, INSTANTS)]);
+        let window = json!([gen_date_window(rng)]);
         let wd = json!([rng.below(7), rng.below(7)]);
-        let tod = json!([gen_range(rng, TIMES)]);
+        let tod = json!([gen_time_window(rng)]);
         match rng.below(3) {
             0 => {
                 both["datetime"] = window;
@@ -951,11 +1069,27 @@ pub fn gen_request(rng: &mut Prng, rules: &[Value]) -> Value {
                 2 | 3 => h = h.to_lowercase(),
                 _ => {}
             }
-            q.insert("host".into(), json!(h));
+            // the same host as a client may write it: with a port, with the root dot, without them
+            match rng.below(16) {
+                0 => h.push_str(":8080"),
+                1 => h.push('.'),
+                2 => {
+                    if let Some(i) = h.find(':') {
+                        h.truncate(i);
+                    }
+                }
+                3 => {
+                    if h.ends_with('.') {
+                        h.pop();
+                    }
+                }
+                _ => {}
+            }
+            q.insert("host".into(), json!(h.replace('@', "")));
         }
         _ => {
             if rng.chance(5, 6) {
-                q.insert("host".into(), json!(*rng.pick(REQ_HOSTS)));
+                q.insert("host".into(), json!(pick_text(rng, REQ_HOSTS, Place::Host).replace('@', "")));
             }
         }
     }
@@ -970,17 +1104,25 @@ pub fn gen_request(rng: &mut Prng, rules: &[Value]) -> Value {
             }
             p
         }
-        _ => rng.pick(REQ_PATHS).to_string(),
+        _ => pick_text(rng, REQ_PATHS, Place::Path),
     };
     q.insert("path".into(), json!(path.replace('@', "")));
     // method
     match base.as_ref().and_then(|b| b.get("methods")).and_then(|m| m.as_array()) {
         Some(ms) if !ms.is_empty() && rng.chance(2, 3) => {
-            q.insert("method".into(), ms[rng.below(ms.len())].clone());
+            // a listed method, one time in four in another case ("GET" / "get" / "Get" are three methods)
+            let m = ms[rng.below(ms.len())].as_str().unwrap_or("GET").to_string();
+            let m = match rng.below(12) {
+                0 => m.to_lowercase(),
+                1 => m.to_uppercase(),
+                2 => swapcase(&m),
+                _ => m,
+            };
+            q.insert("method".into(), json!(m));
         }
         _ => {
             if rng.chance(2, 3) {
-                q.insert("method".into(), json!(*rng.pick(METHODS)));
+                q.insert("method".into(), json!(pick_text(rng, METHODS, Place::Plain)));
             }
         }
     }
@@ -993,6 +1135,10 @@ pub fn gen_request(rng: &mut Prng, rules: &[Value]) -> Value {
             if rng.chance(1, 2) {
                 let last = ip.len() - 1;
                 ip[last] = (ip[last] + 1) % 256;
+            }
+            if ip.len() == 4 && rng.chance(1, 6) {
+                // the same client seen through a dual-stack socket
+                ip = v4_mapped(&ip);
             }
             q.insert("ip".into(), json!(ip));
         }
@@ -1024,13 +1170,25 @@ pub fn gen_request(rng: &mut Prng, rules: &[Value]) -> Value {
             };
             if !miss(rng) {
                 let v = if rng.chance(1, 8) { v.to_uppercase() } else { v };
+                // white space at the ends of a value is part of the value
+                let v = match rng.below(16) {
+                    0 => format!("{v} "),
+                    1 => v.trim_end().to_string(),
+                    2 => format!(" {v}"),
+                    _ => v,
+                };
+                let name = match rng.below(12) {
+                    0 => name.to_uppercase(),
+                    1 => swapcase(&name),
+                    _ => name,
+                };
                 headers.push(json!([name, v.replace('@', "")]));
             }
         }
     }
     let extra = rng.below(3);
     for _ in 0..extra {
-        headers.push(json!([*rng.pick(HNAMES), *rng.pick(REQ_HVALUES)]));
+        headers.push(json!([pick_text(rng, HNAMES, Place::Plain), pick_text(rng, REQ_HVALUES, Place::Plain)]));
     }
     if !headers.is_empty() {
         q.insert("headers".into(), Value::Array(headers));
@@ -1042,8 +1200,21 @@ pub fn gen_request(rng: &mut Prng, rules: &[Value]) -> Value {
         if let Some(rs) = b.get("datetime").and_then(|m| m.as_array()) {
             for r in rs {
                 for x in r.as_array().unwrap() {
-                    if let Some(t) = x.as_u64() {
+                    if let Some((t, off, ns)) = bound_parts(x) {
                         cands.extend([t, t.saturating_sub(1), t + 1]);
+                        if ns > 0 {
+                            cands.extend([t, t + 1, t + 2]);
+                        }
+                        if off != 0 {
+                            // the instants an implementation that forgets the zone would take for the bound
+                            for d in [-1i64, 0, 1] {
+                                let shifted = |sign: i64| (t as i64 + sign * off * 60 + d).max(0) as u64;
+                                cands.extend([shifted(1), shifted(-1), shifted(1), shifted(-1)]);
+                            }
+                            // and one strictly between the bound and its shifted twin
+                            let mid = (t as i64 + off * 30).max(0) as u64;
+                            cands.extend([mid, mid, (t as i64 - off * 30).max(0) as u64]);
+                        }
                     }
                 }
             }
@@ -1051,7 +1222,7 @@ pub fn gen_request(rng: &mut Prng, rules: &[Value]) -> Value {
         if let Some(rs) = b.get("time").and_then(|m| m.as_array()) {
             for r in rs {
                 for x in r.as_array().unwrap() {
-                    if let Some(t) = x.as_u64() {
+                    if let Some((t, _, _)) = bound_parts(x) {
                         let day = T0 + 86_400 * rng.below(8) as u64;
                         cands.extend([day + t, (day + t).saturating_sub(1), day + (t + 1) % 86_400]);
                     }
@@ -1075,8 +1246,115 @@ pub fn gen_request(rng: &mut Prng, rules: &[Value]) -> Value {
     }
     if let Some(t) = at {
         q.insert("at".into(), json!(t));
+        if rng.chance(1, 3) {
+            // the same instant written in another zone
+            q.insert("atoff".into(), json!(pick_offset(rng)));
+        }
     }
     Value::Object(q)
+}
+
+/// The hint-directed block every generator emits FIRST when the library differs from the baseline
+/// (`the_hints()` not empty): `(cfg, rules, requests)` triples in which
+///  * every repeatable place of the grammar (rules of a case, ip ranges / methods / header conditions / date
+///    windows / time windows / week days of a rule, segments of a path, characters of a literal, headers of a
+///    request) has n-1, n, n+1 elements for every hinted number n, and
+///  * every hinted string (also upper-, lower-, swap-cased) stands at most places that hold free text: hosts,
+///    paths, schemes, method names, header names and values, offsets of date texts; hinted numbers also as
+///    rank, prefix length, address byte, distance of an instant from a bound, time of day, zone offset.
+/// `budget` bounds the number of randomly drawn cases of the second kind.
+pub fn hint_block(rng: &mut Prng, budget: usize) -> Vec<(Value, Vec<Value>, Vec<Value>)> {
+    let mut out: Vec<(Value, Vec<Value>, Vec<Value>)> = Vec::new();
+    if the_hints().is_empty() {
+        return out;
+    }
+    let reqs_for = |rng: &mut Prng, rules: &[Value], n: usize| -> Vec<Value> { (0..n).map(|_| gen_request(rng, rules)).collect() };
+    set_hint_level(1);
+    for k in the_hints().sizes(300) {
+        // k rules
+        let rules = gen_rules(rng, k, "r");
+        let reqs = reqs_for(rng, &rules, 5);
+        out.push((gen_cfg(rng), rules, reqs));
+        // k elements in every list of a rule
+        if k <= 64 {
+            let mut rules: Vec<Value> = Vec::new();
+            let mk = |id: &str, key: &str, v: Value| -> Value {
+                let mut r = json!({"id": id, "rank": 1, "markers": "dlsx", "path": "/a"});
+                r[key] = v;
+                r
+            };
+            rules.push(mk("k-ips", "ips", Value::Array((0..k).map(|_| gen_cidr(rng)).collect())));
+            rules.push(mk("k-ips-distinct", "ips", Value::Array((0..k).map(|i| json!({"neg": false, "ip": [10, i % 256, 0, 0], "bits": 16})).collect())));
+            rules.push(mk("k-methods", "methods", Value::Array((0..k).map(|i| json!(format!("M{i}"))).collect())));
+            let mut ex = mk("k-methods-ex", "methods", Value::Array((0..k).map(|i| json!(format!("M{i}"))).collect()));
+            ex["exclude"] = json!(true);
+            rules.push(ex);
+            rules.push(mk("k-dates", "datetime", Value::Array((0..k).map(|_| gen_date_window(rng)).collect())));
+            rules.push(mk("k-times", "time", Value::Array((0..k).map(|_| gen_time_window(rng)).collect())));
+            rules.push(mk("k-days", "weekdays", gen_weekdays(rng, k)));
+            if k <= 24 {
+                rules.push(mk("k-headers", "headers", Value::Array((0..k).map(|_| gen_header_cond(rng)).collect())));
+                rules.push(mk(
+                    "k-headers-distinct",
+                    "headers",
+                    Value::Array((0..k).map(|i| json!({"name": format!("X-{i}"), "kind": "is_equals", "value": "v"})).collect()),
+                ));
+            }
+            let mut reqs = reqs_for(rng, &rules, 8);
+            for j in [k.saturating_sub(1), k, k + 1] {
+                // a request with j headers; the last method / address of the lists
+                let hs: Vec<Value> = (0..j).map(|i| json!([format!("X-{i}"), "v"])).collect();
+                reqs.push(json!({"path": "/a", "method": format!("M{}", j.saturating_sub(1)), "ip": [10, j.saturating_sub(1) % 256, 0, 1], "headers": hs, "at": T0}));
+            }
+            out.push((gen_cfg(rng), rules, reqs));
+            // a path of k segments, with and without a marker at its end
+            let segs = "/a".repeat(k);
+            let rules = vec![
+                json!({"id": "segs", "rank": 1, "markers": "", "path": segs}),
+                json!({"id": "segs-d", "rank": 2, "markers": "d", "path": format!("{segs}/@d")}),
+                json!({"id": "segs-x", "rank": 3, "markers": "x", "path": format!("{}@x", if k <= 1 { "/".to_string() } else { "/a".repeat(k - 1) })}),
+            ];
+            let mut reqs = Vec::new();
+            for j in [k.saturating_sub(1), k, k + 1] {
+                reqs.push(json!({"path": if j == 0 { "/".to_string() } else { "/a".repeat(j) }}));
+                reqs.push(json!({"path": format!("{}/12", "/a".repeat(j))}));
+            }
+            out.push((gen_cfg(rng), rules, reqs));
+        }
+        // literals of k characters
+        let lit = "a".repeat(k);
+        let rules = vec![
+            json!({"id": "len-path", "rank": 1, "markers": "", "path": format!("/{lit}")}),
+            json!({"id": "len-path-d", "rank": 2, "markers": "d", "path": format!("/{lit}@d")}),
+            json!({"id": "len-host", "rank": 3, "markers": "", "host": format!("{lit}.com"), "path": "/a"}),
+            json!({"id": "len-host-l", "rank": 4, "markers": "l", "host": format!("{lit}.@l"), "path": "/a"}),
+            json!({"id": "len-method", "rank": 5, "markers": "", "methods": [lit.to_uppercase()], "path": "/a"}),
+            json!({"id": "len-hvalue", "rank": 6, "markers": "", "headers": [{"name": "X-A", "kind": "is_equals", "value": lit}], "path": "/a"}),
+            json!({"id": "len-hname", "rank": 7, "markers": "", "headers": [{"name": format!("X-{lit}"), "kind": "is_defined", "value": null}], "path": "/a"}),
+            json!({"id": "len-hregex", "rank": 8, "markers": "d", "headers": [{"name": "X-B", "kind": "match_regex", "value": format!("{lit}@d")}], "path": "/a"}),
+        ];
+        let mut reqs = Vec::new();
+        for j in [k.saturating_sub(1), k, k + 1] {
+            let l = "a".repeat(j);
+            reqs.push(json!({"path": format!("/{l}")}));
+            reqs.push(json!({"path": format!("/{l}7")}));
+            reqs.push(json!({"path": "/a", "host": format!("{l}.com"), "method": l.to_uppercase(), "headers": [["X-A", l], [format!("X-{l}"), ""], ["X-B", format!("{l}7")]]}));
+            reqs.push(json!({"path": "/a", "host": format!("{l}.org"), "method": l.to_uppercase()}));
+        }
+        out.push((gen_cfg(rng), rules, reqs));
+    }
+    // cases drawn from the usual grammar with the hinted strings / numbers at most places
+    set_hint_level(2);
+    for i in 0..budget {
+        let max_rules = if i % 3 == 0 { 3 } else { 8 };
+        let n = rng.range(1, max_rules);
+        let rules = gen_rules(rng, n, "h");
+        let nq = rng.range(3, 6);
+        let reqs = reqs_for(rng, &rules, nq);
+        out.push((gen_cfg(rng), rules, reqs));
+    }
+    set_hint_level(1);
+    out
 }
 
 pub fn sorted_ids(routes: &[std::sync::Arc<redirectionio::router::Route<Rule>>]) -> Vec<String> {
